@@ -39,11 +39,22 @@ pub struct DelayBackend {
     pub seed: u64,
     pub max_us: u64,
     pub calls: Arc<AtomicU64>,
+    /// every write of a PACK file sleeps `pack_write_ms ..= 2.5 * pack_write_ms` milliseconds (by seed); 0 = off
+    pub pack_write_ms: u64,
 }
 
 impl DelayBackend {
     pub fn new(seed: u64, max_us: u64) -> Self {
-        Self { inner: MemBackend::new(), seed, max_us, calls: Arc::new(AtomicU64::new(0)) }
+        Self { inner: MemBackend::new(), seed, max_us, calls: Arc::new(AtomicU64::new(0)), pack_write_ms: 0 }
+    }
+    fn pack_write_nap(&self) {
+        if self.pack_write_ms == 0 {
+            return;
+        }
+        let k = self.calls.fetch_add(1, Ordering::Relaxed);
+        let mut r = Rng::new(self.seed ^ k.wrapping_mul(0x51_7C_C1_B7));
+        let us = self.pack_write_ms * 1000 + r.below(self.pack_write_ms * 1500 + 1);
+        std::thread::sleep(Duration::from_micros(us));
     }
     fn nap(&self) {
         if self.max_us == 0 {
@@ -88,6 +99,9 @@ impl WriteBackend for DelayBackend {
     }
     fn write_bytes(&self, tpe: FileType, id: &Id, cacheable: bool, buf: BytesList) -> RusticResult<()> {
         self.nap();
+        if tpe == FileType::Pack {
+            self.pack_write_nap();
+        }
         self.inner.write_bytes(tpe, id, cacheable, buf)
     }
     fn remove(&self, tpe: FileType, id: &Id, cacheable: bool) -> RusticResult<()> {
@@ -175,7 +189,49 @@ fn in_pool<T: Send>(threads: usize, f: impl FnOnce() -> T + Send) -> T {
 /// within `secs` seconds (the child is killed); `Err("child-…")` = the child could not be run at all (harness trouble,
 /// reported as such — never as a timeout).
 fn in_child(threads: usize, secs: u64, line: &str) -> Result<String, String> {
+    spawn_vh(Some(threads), secs, line)
+}
+
+/// Name of the environment variable that marks a `vh exec` spawned by this module: it executes its op in-process.
+const CHILD_ENV: &str = "VH_C13_CHILD";
+
+fn is_child() -> bool {
+    std::env::var_os(CHILD_ENV).is_some()
+}
+
+/// Number of cases of this implementation run that ended in a timeout (supervisor side).
+static TIMEOUTS: std::sync::atomic::AtomicUsize = std::sync::atomic::AtomicUsize::new(0);
+/// After this many timeouts the remaining watchdog-guarded cases are not run any more (`not-run:…`): a hang that hits
+/// every case must not cost `cases × watchdog` seconds.
+const MAX_TIMEOUTS: usize = 3;
+
+/// Run one watchdog-guarded op line in a child process of its own (`vh exec` on the running image, own process group) and
+/// kill it — with everything it has spawned — when it has not answered after `budget` seconds: a deadlocked command cannot
+/// be stopped from inside its process (the thread watchdogs below only stop waiting), a process can.  The child's own
+/// thread watchdogs are shorter than `budget`, so normally the child itself reports `oracle-fail:…timeout` with the run
+/// number and exits, which also ends its hung threads.  `counts` = a timeout of this case counts towards `MAX_TIMEOUTS`
+/// (witness replays that carry their own watchdog seconds do not).
+fn supervised(line: &str, budget: u64, counts: bool) -> String {
+    use std::sync::atomic::Ordering::SeqCst;
+    if TIMEOUTS.load(SeqCst) >= MAX_TIMEOUTS {
+        return format!("not-run:{MAX_TIMEOUTS}-earlier-cases-timed-out");
+    }
+    let obs = match spawn_vh(None, budget, line) {
+        Ok(s) => s,
+        Err(e) if e == "timeout" => "oracle-fail:timeout".into(),
+        Err(e) => e,
+    };
+    if counts && obs.starts_with("oracle-fail") && obs.ends_with("timeout") {
+        _ = TIMEOUTS.fetch_add(1, SeqCst);
+    }
+    obs
+}
+
+/// `threads = Some(n)`: child with `RAYON_NUM_THREADS=n` pinned to n CPUs; `None`: plain child in its own process group
+/// (the supervisor's child: killed as a group).
+fn spawn_vh(threads: Option<usize>, secs: u64, line: &str) -> Result<String, String> {
     use std::io::{Read, Write};
+    use std::os::unix::process::CommandExt;
     use std::process::{Command, Stdio};
     // the running image itself (survives a rebuild that replaces the file on disk)
     let exe = if std::path::Path::new("/proc/self/exe").exists() {
@@ -187,7 +243,7 @@ fn in_child(threads: usize, secs: u64, line: &str) -> Result<String, String> {
     // sized by `std::thread::available_parallelism()` (pariter's `parallel_map` in the packer pipeline and the archiver)
     // then run with `threads` workers too
     let ncpu = std::thread::available_parallelism().map_or(1, std::num::NonZero::get);
-    let cpus = (threads <= ncpu).then(|| {
+    let cpus = threads.filter(|t| *t <= ncpu).map(|threads| {
         let off = line.len() % ncpu;
         (0..threads).map(|i| ((off + i) % ncpu).to_string()).collect::<Vec<_>>().join(",")
     });
@@ -200,7 +256,12 @@ fn in_child(threads: usize, secs: u64, line: &str) -> Result<String, String> {
             }
             None => Command::new(&exe),
         };
-        cmd.arg("exec").env("RAYON_NUM_THREADS", threads.to_string()).stdin(Stdio::piped()).stdout(Stdio::piped()).stderr(Stdio::null()).spawn()
+        _ = cmd.arg("exec").env(CHILD_ENV, "1").stdin(Stdio::piped()).stdout(Stdio::piped()).stderr(Stdio::null());
+        match threads {
+            Some(n) => _ = cmd.env("RAYON_NUM_THREADS", n.to_string()),
+            None => _ = cmd.process_group(0),
+        }
+        cmd.spawn()
     };
     let mut tries = 0;
     let mut affinity = cpus.as_ref();
@@ -217,11 +278,28 @@ fn in_child(threads: usize, secs: u64, line: &str) -> Result<String, String> {
             Err(e) => return Err(format!("child-spawn-failed:{:?}", e.kind())),
         }
     };
+    let kill = |child: &mut std::process::Child| {
+        if threads.is_none() {
+            // the whole process group: the child and the `g<n>` children it may have spawned
+            _ = Command::new("kill").arg("-9").arg(format!("-{}", child.id())).stdout(Stdio::null()).stderr(Stdio::null()).status();
+        }
+        _ = child.kill();
+        _ = child.wait();
+    };
     {
-        let mut stdin = child.stdin.take().ok_or("child-no-stdin")?;
-        stdin.write_all(line.as_bytes()).and_then(|()| stdin.write_all(b"\n")).map_err(|e| format!("child-write-failed:{:?}", e.kind()))?;
+        let Some(mut stdin) = child.stdin.take() else {
+            kill(&mut child);
+            return Err("child-no-stdin".into());
+        };
+        if let Err(e) = stdin.write_all(line.as_bytes()).and_then(|()| stdin.write_all(b"\n")) {
+            kill(&mut child);
+            return Err(format!("child-write-failed:{:?}", e.kind()));
+        }
     }
-    let mut stdout = child.stdout.take().ok_or("child-no-stdout")?;
+    let Some(mut stdout) = child.stdout.take() else {
+        kill(&mut child);
+        return Err("child-no-stdout".into());
+    };
     let reader = std::thread::spawn(move || {
         let mut out = String::new();
         _ = stdout.read_to_string(&mut out);
@@ -233,8 +311,7 @@ fn in_child(threads: usize, secs: u64, line: &str) -> Result<String, String> {
             Ok(Some(_)) => break,
             Ok(None) if t0.elapsed() < Duration::from_secs(secs) => std::thread::sleep(Duration::from_millis(3)),
             _ => {
-                _ = child.kill();
-                _ = child.wait();
+                kill(&mut child);
                 return Err("timeout".into());
             }
         }
@@ -243,13 +320,17 @@ fn in_child(threads: usize, secs: u64, line: &str) -> Result<String, String> {
     out.lines().next().map(ToString::to_string).ok_or_else(|| "child-no-output".to_string())
 }
 
-/// `<seed>` or `<seed>.<pool>`
-/// `seed[.pool[.watchdog-seconds]]` (the watchdog defaults to 60 s; a shorter one keeps a witness of a hang cheap to replay)
+/// Watchdog of one command sequence / one oracle pass of ordinary size, seconds (cases of `n` trees / source entries get
+/// `WD_SECS + n / 200`).  Ordinary cases need well under a second; the margin is for a loaded host.
+const WD_SECS: u64 = 20;
+
+/// `seed[.pool[.watchdog-seconds]]` (`0` watchdog seconds = the default `WD_SECS` + size allowance; an explicit one keeps a
+/// witness of a hang cheap to replay)
 fn parse_seed_pool(s: &str) -> Option<(u64, Pool, u64)> {
     let f: Vec<&str> = s.split('.').collect();
     match f.as_slice() {
-        [a] => Some((a.parse().ok()?, Pool::Default, 60)),
-        [a, b] => Some((a.parse().ok()?, parse_pool(b)?, 60)),
+        [a] => Some((a.parse().ok()?, Pool::Default, 0)),
+        [a, b] => Some((a.parse().ok()?, parse_pool(b)?, 0)),
         [a, b, w] => Some((a.parse().ok()?, parse_pool(b)?, w.parse().ok().filter(|w| (1..=600).contains(w))?)),
         _ => None,
     }
@@ -267,17 +348,56 @@ macro_rules! tryk {
 // ------------------------------------------------------------------------------------------------
 // stream
 
+/// most labels one forest / root list may expand to
+const MAX_LABELS: usize = 200_000;
+
+/// `7` or the range `3-9` (both ends included, `lo <= hi`)
+fn parse_labels_item(x: &str, out: &mut Vec<u64>) -> Option<()> {
+    let num = |y: &str| if !y.is_empty() && y.bytes().all(|b| b.is_ascii_digit()) { y.parse::<u64>().ok() } else { None };
+    match x.split_once('-') {
+        None => out.push(num(x)?),
+        Some((a, b)) => {
+            let (a, b) = (num(a)?, num(b)?);
+            if a > b || (b - a) as usize >= MAX_LABELS || out.len() + (b - a) as usize >= MAX_LABELS {
+                return None;
+            }
+            out.extend(a..=b);
+        }
+    }
+    Some(())
+}
+
+/// label list: items separated by `sep`, every item a label or a range `lo-hi`
+fn parse_labels(s: &str, sep: char) -> Option<Vec<u64>> {
+    let mut out = vec![];
+    for x in s.split(sep) {
+        parse_labels_item(x, &mut out)?;
+    }
+    Some(out)
+}
+
+/// `<ids>=<children>;…`: `ids` a label or a range `lo-hi` (every tree of the range has the same sub-tree list),
+/// `children` empty or labels / ranges separated by `.`
 fn parse_forest(s: &str) -> Option<Vec<(u64, Vec<u64>)>> {
     if s == "-" {
         return Some(vec![]);
     }
-    s.split(';')
-        .map(|t| {
-            let (id, cs) = t.split_once('=')?;
-            let cs = if cs.is_empty() { Some(vec![]) } else { cs.split('.').map(|x| x.parse::<u64>().ok()).collect::<Option<Vec<_>>>() }?;
-            Some((id.parse::<u64>().ok()?, cs))
-        })
-        .collect()
+    let mut out = vec![];
+    for t in s.split(';') {
+        let (ids, cs) = t.split_once('=')?;
+        let cs = if cs.is_empty() { vec![] } else { parse_labels(cs, '.')? };
+        let mut idv = vec![];
+        parse_labels_item(ids, &mut idv)?;
+        if out.len() + idv.len() > MAX_LABELS || idv.len().saturating_mul(cs.len().max(1)) > 4 * MAX_LABELS {
+            return None;
+        }
+        out.extend(idv.into_iter().map(|i| (i, cs.clone())));
+    }
+    Some(out)
+}
+
+fn parse_roots(s: &str) -> Option<Vec<u64>> {
+    if s == "-" { Some(vec![]) } else { parse_labels(s, ',') }
 }
 
 const TAG_TREE: u8 = 0x7E;
@@ -307,18 +427,21 @@ fn store_forest(h: &DH, forest: &[(u64, Vec<u64>)]) -> RusticResult<()> {
     Ok(())
 }
 
+/// watchdog seconds of a stream case: the explicit ones, or the default with an allowance for the number of trees
+fn stream_wd(explicit: u64, labels: usize) -> u64 {
+    if explicit > 0 { explicit } else { WD_SECS + labels as u64 / 200 }
+}
+
 fn exec_stream(seed: &str, forest: &str, roots: &str) -> String {
-    let (Some((seed, pool, wd_secs)), Some(forest_v)) = (parse_seed_pool(seed), parse_forest(forest)) else {
+    let (Some((seed, pool, wd_secs)), Some(forest_v), Some(roots_v)) = (parse_seed_pool(seed), parse_forest(forest), parse_roots(roots)) else {
         return "bad-op".into();
     };
+    let wd_secs = stream_wd(wd_secs, forest_v.len() + roots_v.len());
     let threads = match pool {
         Pool::Default => 0,
         Pool::Installed(n) => n,
         Pool::Global(n) => {
-            if roots != "-" && roots.split(',').any(|x| x.parse::<u64>().is_err()) {
-                return "bad-op".into();
-            }
-            return match in_child(n, 90, &format!("c13 stream {seed} {forest} {roots}")) {
+            return match in_child(n, wd_secs + 5, &format!("c13 stream {seed}.0.{wd_secs} {forest} {roots}")) {
                 Ok(s) => s,
                 Err(e) if e == "timeout" => "oracle-fail:timeout".into(),
                 Err(e) => e,
@@ -326,14 +449,7 @@ fn exec_stream(seed: &str, forest: &str, roots: &str) -> String {
         }
     };
     let forest = forest_v;
-    let roots: Vec<u64> = if roots == "-" {
-        vec![]
-    } else {
-        match roots.split(',').map(|x| x.parse::<u64>().ok()).collect::<Option<Vec<_>>>() {
-            Some(v) => v,
-            None => return "bad-op".into(),
-        }
-    };
+    let roots = roots_v;
     let cfg = ConfigOptions::default().set_treepack_size(bytesize::ByteSize(1)).set_treepack_growfactor(0u32);
     let h = tryk!(DH::init(DelayBackend::new(seed, 0), &cfg));
     tryk!(store_forest(&h, &forest));
@@ -343,7 +459,8 @@ fn exec_stream(seed: &str, forest: &str, roots: &str) -> String {
     let res = watchdog(wd_secs, move || -> Result<Vec<String>, String> {
       in_pool(threads, move || {
         let repo = hd.open().and_then(|r| r.to_indexed_ids()).map_err(|e| crate::util::errkind(&e))?;
-        let items = rustic_core::verif::tree::stream_once(&repo, ids).map_err(|e| crate::util::errkind(&e))?;
+        // as the callers of the streamer do: stop at the first error item
+        let items = rustic_core::verif::tree::stream_once_until_error(&repo, ids).map_err(|e| crate::util::errkind(&e))?;
         let mut out = vec![];
         for it in items {
             match it {
@@ -371,19 +488,108 @@ fn exec_stream(seed: &str, forest: &str, roots: &str) -> String {
 }
 
 // ------------------------------------------------------------------------------------------------
+// snaps: many snapshots, real `check` and `prune_plan`
+
+/// `c13 snaps <seed[.pool[.watchdog]]> <n>`: a repository with n snapshots whose root trees are pairwise different (stored through
+/// the hooks, one tree per pack); the real `check` (trees only) and `prune_plan` must return — both give ALL snapshot roots to
+/// `TreeStreamerOnce::new` at once — and `check` must report no error.
+fn exec_snaps(seed: &str, n: &str) -> String {
+    let (Some((seed, pool, wd_secs)), Some(n)) = (parse_seed_pool(seed), n.parse::<u64>().ok().filter(|n| (1..=20_000).contains(n))) else {
+        return "bad-op".into();
+    };
+    let wd_secs = stream_wd(wd_secs, 2 * n as usize);
+    let threads = match pool {
+        Pool::Default => 0,
+        Pool::Installed(k) => k,
+        Pool::Global(k) => {
+            return match in_child(k, wd_secs + 5, &format!("c13 snaps {seed}.0.{wd_secs} {n}")) {
+                Ok(s) => s,
+                Err(e) if e == "timeout" => "oracle-fail:timeout".into(),
+                Err(e) => e,
+            };
+        }
+    };
+    let cfg = ConfigOptions::default().set_treepack_size(bytesize::ByteSize(1)).set_treepack_growfactor(0u32);
+    let h = tryk!(DH::init(DelayBackend::new(seed, 0), &cfg));
+    {
+        let repo = tryk!(h.open());
+        let mut blobs = vec![];
+        for i in 1..=n {
+            // a root directory holding one empty file whose name differs from snapshot to snapshot
+            let mut f = Node::new_node(&OsString::from(format!("id{i}")), NodeType::File, Metadata::default());
+            f.content = Some(vec![]);
+            let (chunk, _) = Tree { nodes: vec![f] }.serialize().unwrap();
+            blobs.push((BlobType::Tree, chunk, BlobId::from(fake_id(i, TAG_TREE))));
+        }
+        _ = tryk!(rustic_core::verif::packer::pack_blobs(&repo, blobs));
+        for i in 1..=n {
+            let mut snap = new_snap();
+            snap.tree = TreeId::from(fake_id(i, TAG_TREE));
+            tryk!(rustic_core::verif::repository::save_file(&repo, &snap));
+        }
+    }
+    let mut hd = h.clone();
+    hd.be.max_us = if seed % 3 == 0 { 0 } else { 1000 };
+    let res = watchdog(wd_secs, move || -> Result<Vec<String>, String> {
+        in_pool(threads, move || {
+            let repo = hd.open().map_err(|e| crate::util::errkind(&e))?;
+            let res = repo.check(CheckOptions::default()).map_err(|e| crate::util::errkind(&e))?;
+            let mut v: Vec<String> = res
+                .0
+                .iter()
+                .filter(|(l, _)| format!("{l:?}") == "Error")
+                .map(|(_, e)| format!("{e:?}").split(|c: char| !c.is_alphanumeric()).next().unwrap_or("?").to_string())
+                .collect();
+            v.sort();
+            v.dedup();
+            let repo = repo.to_indexed_ids().map_err(|e| crate::util::errkind(&e))?;
+            _ = repo.prune_plan(&PruneOptions::default()).map_err(|e| crate::util::errkind(&e))?;
+            Ok(v)
+        })
+    });
+    match res {
+        None => "oracle-fail:timeout".into(),
+        Some(Err(e)) => e,
+        Some(Ok(v)) if v.is_empty() => format!("ok snaps={n}"),
+        Some(Ok(v)) => format!("oracle-fail:check-errors:{}", v.join("+")),
+    }
+}
+
+// ------------------------------------------------------------------------------------------------
 // run / hist
 
-/// run token `seed.dpack.tpack[.pool]`; pool: missing/`0` default pool, `<n>` installed pool, `g<n>` child with global pool
-fn parse_runs(s: &str) -> Option<Vec<(u64, u64, u64, Pool)>> {
+/// One run: seed of the latencies, data / tree pack size, rayon pool, and `repack = Some(ms)`: every pack write sleeps
+/// `ms..=2.5 ms` milliseconds and the prune of a `hist` repacks EVERY pack with `fast_repack` (`repack_all`, no repack limit).
+#[derive(Clone, Copy, Debug)]
+struct Run {
+    seed: u64,
+    dsize: u64,
+    tsize: u64,
+    pool: Pool,
+    repack: Option<u64>,
+}
+
+impl Run {
+    /// the token without its pool (what a `g<n>` child is given)
+    fn solo_token(&self) -> String {
+        format!("{}.{}.{}.0{}", self.seed, self.dsize, self.tsize, self.repack.map_or(String::new(), |ms| format!(".r{ms}")))
+    }
+}
+
+/// run token `seed.dpack.tpack[.pool[.r<ms>]]`; pool: missing/`0` default pool, `<n>` installed pool, `g<n>` child with global
+/// pool; `r<ms>` (ms ≤ 1000): pack-write latency and repack-all + fast-repack prune, see `Run`
+fn parse_runs(s: &str) -> Option<Vec<Run>> {
     s.split(',')
         .map(|t| {
             let f: Vec<&str> = t.split('.').collect();
-            let pool = match f.len() {
-                3 => Pool::Default,
-                4 => parse_pool(f[3])?,
+            let num = |y: &str| if !y.is_empty() && y.bytes().all(|b| b.is_ascii_digit()) { y.parse::<u64>().ok() } else { None };
+            let (pool, repack) = match f.len() {
+                3 => (Pool::Default, None),
+                4 => (parse_pool(f[3])?, None),
+                5 => (parse_pool(f[3])?, Some(num(f[4].strip_prefix('r')?).filter(|ms| *ms <= 1000)?)),
                 _ => return None,
             };
-            Some((f[0].parse().ok()?, f[1].parse().ok()?, f[2].parse().ok()?, pool))
+            Some(Run { seed: num(f[0])?, dsize: num(f[1])?, tsize: num(f[2])?, pool, repack })
         })
         .collect()
 }
@@ -499,13 +705,25 @@ fn state_oracles(h: &DH, snap: &SnapshotFile, src: &[SE], k: usize) -> Result<BT
 
 type RunResult = Result<(Id, BTreeSet<(u8, Id)>), String>;
 
+/// watchdog seconds for the commands of one run (and again for its oracles): `WD_SECS` + an allowance for large sources
+/// and for the injected pack-write latency (≤ 2.5·ms per pack write, packs ≤ chunks + directories)
+fn run_wd(sa: &[SE], sb: Option<&[SE]>, repack: Option<u64>) -> u64 {
+    let size = |s: &[SE]| s.iter().map(|e| 1 + e.content.len() as u64).sum::<u64>();
+    let n = size(sa) + sb.map_or(0, size);
+    WD_SECS + n / 200 + repack.map_or(0, |ms| n * ms * 5 / 2 / 1000)
+}
+
 /// One run in this process: the commands and then the oracles, both inside a pool of `threads` workers (0: as is),
 /// each under a watchdog.  `Ok((tree id, referenced (type, id) set))` or the observation to report.
-fn one_run(sa: &[SE], sb: Option<&[SE]>, seed: u64, dsize: u64, tsize: u64, threads: usize, k: usize) -> RunResult {
+fn one_run(sa: &[SE], sb: Option<&[SE]>, run: Run, threads: usize, k: usize) -> RunResult {
     let (sa2, sb2) = (sa.to_vec(), sb.map(<[SE]>::to_vec));
-    let res = watchdog(120, move || -> Result<(DH, SnapshotFile), String> {
+    let Run { seed, dsize, tsize, repack, .. } = run;
+    let wd = run_wd(sa, sb, repack);
+    let res = watchdog(wd, move || -> Result<(DH, SnapshotFile), String> {
         in_pool(threads, move || {
-            let h = DH::init(DelayBackend::new(seed, if seed == 0 { 0 } else { 1500 }), &run_cfg(dsize, tsize)).map_err(|e| crate::util::errkind(&e))?;
+            let mut be = DelayBackend::new(seed, if seed == 0 { 0 } else { 1500 });
+            be.pack_write_ms = repack.unwrap_or(0);
+            let h = DH::init(be, &run_cfg(dsize, tsize)).map_err(|e| crate::util::errkind(&e))?;
             let force = BackupOptions::default().parent_opts(ParentOptions::default().force(true));
             let repo = h.open().and_then(|r| r.to_indexed_ids()).map_err(|e| crate::util::errkind(&e))?;
             let snap_a = repo
@@ -528,6 +746,12 @@ fn one_run(sa: &[SE], sb: Option<&[SE]>, seed: u64, dsize: u64, tsize: u64, thre
                 .keep_pack(rustic_core::jiff::Span::new())
                 .keep_delete(rustic_core::jiff::Span::new())
                 .instant_delete(true);
+            // `r<ms>`: every pack is repacked, blobs are copied as they are (`BlobCopier::copy_fast` -> `Packer::add_raw`)
+            let popts = if repack.is_some() {
+                popts.repack_all(true).fast_repack(true).max_repack(rustic_core::LimitOption::Unlimited)
+            } else {
+                popts
+            };
             let repo = repo.to_indexed_ids().map_err(|e| crate::util::errkind(&e))?;
             let plan = repo.prune_plan(&popts).map_err(|e| crate::util::errkind(&e))?;
             repo.prune(&popts, plan).map_err(|e| crate::util::errkind(&e))?;
@@ -543,8 +767,9 @@ fn one_run(sa: &[SE], sb: Option<&[SE]>, seed: u64, dsize: u64, tsize: u64, thre
     let src_final = sb.unwrap_or(sa).to_vec();
     let mut hq = h.clone();
     hq.be.max_us = 0;
+    hq.be.pack_write_ms = 0;
     let snap2 = snap.clone();
-    match watchdog(120, move || in_pool(threads, move || state_oracles(&hq, &snap2, &src_final, k))) {
+    match watchdog(wd, move || in_pool(threads, move || state_oracles(&hq, &snap2, &src_final, k))) {
         None => Err(format!("oracle-fail:run{k}:oracle-timeout")),
         Some(Ok(r)) => Ok((*snap.tree, r)),
         Some(Err(e)) => Err(e),
@@ -585,11 +810,10 @@ fn exec_solo(k: &str, a: &str, b: &str, run: &str) -> String {
         return "bad-op".into();
     };
     let sb = if b == "~" { None } else { parse_src(b) };
-    if (b != "~" && sb.is_none()) || runs.len() != 1 || runs[0].3 != Pool::Default {
+    if (b != "~" && sb.is_none()) || runs.len() != 1 || runs[0].pool != Pool::Default {
         return "bad-op".into();
     }
-    let (seed, dsize, tsize, _) = runs[0];
-    enc_result(&one_run(&sa, sb.as_deref(), seed, dsize, tsize, 0, k))
+    enc_result(&one_run(&sa, sb.as_deref(), runs[0], 0, k))
 }
 
 fn exec_run(src: &str, runs: &str, src_b: Option<&str>) -> String {
@@ -604,13 +828,14 @@ fn exec_run(src: &str, runs: &str, src_b: Option<&str>) -> String {
         },
     };
     let mut first: Option<(Id, BTreeSet<(u8, Id)>)> = None;
-    for (k, (seed, dsize, tsize, pool)) in runs.iter().enumerate() {
-        let res = match *pool {
-            Pool::Default => one_run(&sa, sb.as_deref(), *seed, *dsize, *tsize, 0, k),
-            Pool::Installed(n) => one_run(&sa, sb.as_deref(), *seed, *dsize, *tsize, n, k),
+    for (k, run) in runs.iter().enumerate() {
+        let res = match run.pool {
+            Pool::Default => one_run(&sa, sb.as_deref(), *run, 0, k),
+            Pool::Installed(n) => one_run(&sa, sb.as_deref(), *run, n, k),
             Pool::Global(n) => {
-                let line = format!("c13 solo {k} {src} {} {seed}.{dsize}.{tsize}", src_b.unwrap_or("~"));
-                match in_child(n, 300, &line) {
+                let line = format!("c13 solo {k} {src} {} {}", src_b.unwrap_or("~"), run.solo_token());
+                // the child's own watchdogs (commands, then oracles) report first; this is the backstop
+                match in_child(n, 2 * run_wd(&sa, sb.as_deref(), run.repack) + 10, &line) {
                     Ok(s) => dec_result(&s),
                     Err(e) if e == "timeout" => Err(format!("oracle-fail:run{k}:timeout")),
                     Err(e) => Err(format!("run{k}:{e}")),
@@ -663,10 +888,10 @@ fn exec_chk(delay_ms: &str) -> String {
     }
     let mut hd = h.clone();
     // constant delay: every read sleeps delay_ms
-    hd.be = DelayBackend { inner: h.be.inner.clone(), seed: 0, max_us: 0, calls: h.be.calls.clone() };
+    hd.be = DelayBackend { inner: h.be.inner.clone(), seed: 0, max_us: 0, calls: h.be.calls.clone(), pack_write_ms: 0 };
     let slow = SlowReads { inner: hd.be.clone(), ms: delay_ms };
     let key = h.key.clone();
-    let res = watchdog(60, move || -> Result<usize, String> {
+    let res = watchdog(WD_SECS, move || -> Result<usize, String> {
         let backends = RepositoryBackends::new(Arc::new(slow), None);
         let repo = Repository::new(&DH::opts(), &backends)
             .and_then(|r| r.open(&Credentials::Masterkey(key)))
@@ -770,9 +995,87 @@ fn gen_runs(rng: &mut Rng, n: usize, stats: &mut Stats) -> String {
     // run 0: undelayed, default packs, default pool
     let mut v = vec![format!("0.{}.{}.0", sizes[4], sizes[4])];
     for _ in 1..n {
-        v.push(format!("{}.{}.{}.{}", 1 + rng.below(10_000), rng.pick(&sizes), rng.pick(&sizes), gen_pool(rng, stats)));
+        let mut t = format!("{}.{}.{}.{}", 1 + rng.below(10_000), rng.pick(&sizes), rng.pick(&sizes), gen_pool(rng, stats));
+        // now and then: slow pack writes, and (in a `hist`) a prune that repacks everything with `fast_repack`
+        if rng.chance(1, 6) {
+            stats.hit("c13.repack-all-fast");
+            t.push_str(&format!(".r{}", rng.pick(&[0u64, 2, 10])));
+        }
+        v.push(t);
     }
     v.join(",")
+}
+
+/// A pool with at least two workers (or the default one): `<n>`, `g<n>` with n in 2..=16, or `0`.
+fn gen_pool2(rng: &mut Rng, stats: &mut Stats) -> String {
+    let t = match rng.below(6) {
+        0 | 1 => return "0".into(),
+        2 => 2,
+        3 => 16,
+        _ => rng.range(2, 16),
+    };
+    let global = rng.chance(1, 3);
+    stats.hit(format!("c13.pool.{}{t}", if global { "g" } else { "" }));
+    format!("{}{t}", if global { "g" } else { "" })
+}
+
+/// Streams whose consumer has more than `TreeStreamerOnce`'s loaders and result queue can absorb outstanding at once:
+/// `kind 0` one directory with n distinct sub-directories, `kind 1` n distinct roots (n snapshots), `kind 2` a directory
+/// of m directories that all share the same n sub-directories.  n is beyond any "a few hundred / a thousand" queue bound;
+/// `kind 3` / `kind 4` (thorough tier) are kind 0 / kind 1 with n in 5000..=12000.
+fn gen_stream_wide(rng: &mut Rng, kind: u64, stats: &mut Stats) -> String {
+    let (n, kind) = if kind >= 3 { (rng.range(5000, 12_000), kind - 3) } else { (rng.range(1100, 1600), kind) };
+    let seed = rng.below(1000);
+    let pool = gen_pool(rng, stats);
+    stats.hit(format!("c13.stream.wide.{kind}"));
+    stats.add("c13.stream.trees", n);
+    match kind {
+        0 => format!("c13 stream {seed}.{pool} 1=2-{};2-{}= 1", n + 1, n + 1),
+        1 => format!("c13 stream {seed}.{pool} 1-{n}= 1-{n}"),
+        _ => {
+            let m = rng.range(2, 40);
+            format!("c13 stream {seed}.{pool} 1=2-{};2-{}={}-{};{}-{}= 1", m + 1, m + 1, m + 2, m + n + 1, m + 2, m + n + 1)
+        }
+    }
+}
+
+/// Source pair with ONE directory of n (> 1100) pairwise different sub-directories (a file with its own inode in each);
+/// B differs from A in a few of them.  `check` / `prune` walk it with `TreeStreamerOnce`.
+fn gen_src_wide(rng: &mut Rng, stats: &mut Stats) -> (Vec<SE>, Vec<SE>) {
+    use crate::dispatch::c11::{flatten, T};
+    let n = rng.range(1100, 1400);
+    stats.add("c13.wide.subdirs", n);
+    let sub = |i: u64, label: Option<u64>| -> (Vec<u8>, T) {
+        let f = T::File { content: label.into_iter().collect(), mtime: 100, ctime: 200, inode: 10_000 + i };
+        (format!("d{i:05}").into_bytes(), T::Dir { children: vec![(b"f".to_vec(), f)], mtime: 100, ctime: 200, inode: 50_000 + i })
+    };
+    let a: Vec<(Vec<u8>, T)> = (0..n).map(|i| sub(i, None)).collect();
+    let mut b = a.clone();
+    for _ in 0..rng.range(1, 8) {
+        let i = rng.below(n);
+        b[i as usize] = sub(i, Some(rng.below(14)));
+    }
+    let top = |ch: Vec<(Vec<u8>, T)>| vec![(b"w".to_vec(), T::Dir { children: ch, mtime: 100, ctime: 200, inode: 7 })];
+    let (mut fa, mut fb) = (vec![], vec![]);
+    flatten(&top(a), &[], &mut fa);
+    flatten(&top(b), &[], &mut fb);
+    (fa, fb)
+}
+
+/// Source pair with at least 45 distinct chunks that both snapshots share (file `z`, 64-byte blocks = one chunk each under the
+/// fixed-size chunker) and some only A has (file `y`): with one blob per pack a repack-all prune repacks ≥ 45 packs.
+fn gen_src_many(rng: &mut Rng, stats: &mut Stats) -> (Vec<SE>, Vec<SE>) {
+    use crate::dispatch::c11::K;
+    let (mut fa, mut fb) = gen_src_pair(rng, stats);
+    let m = rng.range(45, 80);
+    let start = rng.range(20, 300);
+    stats.add("c13.many.chunks", m);
+    let file = |name: &[u8], inode: u64, content: Vec<u64>| SE { path: vec![name.to_vec()], kind: K::File, mtime: 100, ctime: 200, inode, content };
+    // names sort after everything `gen_src_pair` makes (`a`..`e`)
+    fa.push(file(b"y", 901, (start + 100..start + 100 + rng.range(1, 12)).collect()));
+    fa.push(file(b"z", 902, (start..start + m).collect()));
+    fb.push(file(b"z", 902, (start..start + m).collect()));
+    (fa, fb)
 }
 
 fn gen_src_pair(rng: &mut Rng, stats: &mut Stats) -> (Vec<SE>, Vec<SE>) {
@@ -808,16 +1111,87 @@ pub fn generate(thorough: bool, rng: &mut Rng, ops: &mut Vec<String>, stats: &mu
         ops.push(format!("c13 hist {} {} {}", enc_src(&a), enc_src(&b), gen_runs(&mut r, if thorough { 4 } else { 3 }, stats)));
     }
     ops.push("c13 chk 250".into());
+    // wide shapes: more outstanding tree requests than any fixed queue bound of the streamer (hook and real check / prune)
+    for i in 0..(if thorough { 12 } else { 2 }) {
+        let mut r = rng.fork();
+        let kind = if i < 2 { i } else if i < 4 { i + 1 } else { r.below(3) };
+        ops.push(gen_stream_wide(&mut r, kind, stats));
+    }
+    // more snapshots than any fixed queue bound: real `check` + `prune_plan`
+    for _ in 0..(if thorough { 4 } else { 1 }) {
+        let mut r = rng.fork();
+        stats.hit("c13.snaps");
+        ops.push(format!("c13 snaps {}.{} {}", r.below(1000), gen_pool(&mut r, stats), r.range(1100, 1500)));
+    }
+    for i in 0..(if thorough { 6 } else { 2 }) {
+        let mut r = rng.fork();
+        let (a, b) = gen_src_wide(&mut r, stats);
+        let runs = format!("0.4000000.4000000.0,{}.{}.{}.{}", 1 + r.below(10_000), r.pick(&[1u64, 200, 4_000_000]), r.pick(&[200u64, 5000, 4_000_000]), gen_pool(&mut r, stats));
+        if i % 2 == 0 {
+            stats.hit("c13.run.wide");
+            ops.push(format!("c13 run {} {runs}", enc_src(&a)));
+        } else {
+            stats.hit("c13.hist.wide");
+            ops.push(format!("c13 hist {} {} {runs}", enc_src(&a), enc_src(&b)));
+        }
+    }
+    // one blob per pack, slow pack writes, every pack repacked concurrently with `fast_repack` (`Packer::add_raw` from the
+    // repack workers while the file writer is busy and its queue is full)
+    for _ in 0..(if thorough { 12 } else { 2 }) {
+        let mut r = rng.fork();
+        let (a, b) = gen_src_many(&mut r, stats);
+        stats.hit("c13.hist.repack-all-fast");
+        let mut runs = vec!["0.4000000.4000000.0".to_string()];
+        runs.push(format!("{}.1.1.{}.r{}", 1 + r.below(10_000), gen_pool2(&mut r, stats), r.range(20, 30)));
+        runs.push(format!("{}.{}.{}.{}.r{}", 1 + r.below(10_000), r.pick(&[1u64, 1, 200]), r.pick(&[1u64, 200, 4_000_000]), gen_pool(&mut r, stats), r.pick(&[0u64, 5, 20])));
+        ops.push(format!("c13 hist {} {} {}", enc_src(&a), enc_src(&b), runs.join(",")));
+    }
+}
+
+/// Seconds after which the supervisor kills the child that executes this op, and whether a timeout counts towards
+/// `MAX_TIMEOUTS`; `None`: not a watchdog-guarded op (or ill-formed: answered `bad-op` in-process).
+fn budget_of(t: &[&str]) -> Option<(u64, bool)> {
+    match t {
+        ["stream", seed, forest, roots] => {
+            let (_, _, wd) = parse_seed_pool(seed)?;
+            let n = parse_forest(forest)?.len() + parse_roots(roots)?.len();
+            Some((stream_wd(wd, n) + 15, wd == 0))
+        }
+        ["run", src, runs] | ["hist", src, _, runs] => {
+            let sa = parse_src(src)?;
+            let sb = if let ["hist", _, b, _] = t { Some(parse_src(b)?) } else { None };
+            let runs = parse_runs(runs)?;
+            let wd = runs.iter().map(|r| run_wd(&sa, sb.as_deref(), r.repack)).max()?;
+            Some((2 * wd + 10 * runs.len() as u64 + 20, true))
+        }
+        ["chk", ms] => ms.parse::<u64>().ok().map(|_| (WD_SECS + 15, true)),
+        ["snaps", seed, n] => {
+            let (_, _, wd) = parse_seed_pool(seed)?;
+            let n = n.parse::<u64>().ok().filter(|n| (1..=20_000).contains(n))?;
+            Some((stream_wd(wd, 2 * n as usize) + 20, wd == 0))
+        }
+        _ => None,
+    }
 }
 
 pub fn exec(t: &[&str]) -> String {
     let t: Vec<String> = t.iter().map(|s| (*s).to_string()).collect();
-    guarded(move || match t.iter().map(String::as_str).collect::<Vec<_>>().as_slice() {
-        ["stream", seed, forest, roots] => exec_stream(seed, forest, roots),
-        ["run", src, runs] => exec_run(src, runs, None),
-        ["hist", a, b, runs] => exec_run(a, runs, Some(b)),
-        ["solo", k, a, b, run] => exec_solo(k, a, b, run),
-        ["chk", ms] => exec_chk(ms),
-        _ => "bad-op".into(),
+    guarded(move || {
+        let v: Vec<&str> = t.iter().map(String::as_str).collect();
+        // every watchdog-guarded case runs in a process of its own that can be killed; the child executes it below
+        if !is_child() {
+            if let Some((budget, counts)) = budget_of(&v) {
+                return supervised(&format!("c13 {}", v.join(" ")), budget, counts);
+            }
+        }
+        match v.as_slice() {
+            ["stream", seed, forest, roots] => exec_stream(seed, forest, roots),
+            ["run", src, runs] => exec_run(src, runs, None),
+            ["hist", a, b, runs] => exec_run(a, runs, Some(b)),
+            ["solo", k, a, b, run] => exec_solo(k, a, b, run),
+            ["chk", ms] => exec_chk(ms),
+            ["snaps", seed, n] => exec_snaps(seed, n),
+            _ => "bad-op".into(),
+        }
     })
 }
